@@ -11,7 +11,7 @@ SPEC = {
     "quick_procs": 2, "thorough_procs": 16, "timeout_quick": 400, "timeout_thorough": 2400,
     "anchors": ["PyMatterSim.static.gr:conditional_gr", "PyMatterSim.static.sq:conditional_sq"],
     "must_reach": ["PyMatterSim.static.gr:conditional_gr", "PyMatterSim.static.sq:conditional_sq"],
-    "floors": {"gA": 800, "gr_column": 800, "gA_norm": 20, "sq_pervector": 1000, "sq_average": 300,
+    "floors": {"reused_arrays": 60, "gA": 800, "gr_column": 800, "gA_norm": 20, "sq_pervector": 1000, "sq_average": 300,
                "reduce_partial_gr": 15, "reduce_partial_sq": 20, "reduce_total": 50, "reduce_components": 80},
     "rule": ("single configurations x condition kinds {bool, float, complex128, real vector, complex vector, symmetric tensor, "
              "general tensor} x {2D,3D} x {orthogonal, triclinic (g only)} x masks x bin widths x integer wave-vector lists; "
@@ -74,7 +74,14 @@ def case_gr(ctx, rng):
     info = lambda: {"kind": kind, "d": d, "N": N, "cell": inf["cell"], "ppp": ppp, "rdelta": w, "H": cell["H"],  # noqa: E731
                     "positions": s.positions if N <= 25 else "omitted", "condition": A if N <= 25 else "omitted"}
     key = f"conditional_gr/{kind}"
-    ok, res = ctx.call(key, conditional_gr, s, A.copy(), ctype, ppp, w, data=info)
+    Acall = A.copy()
+    ok, res = ctx.call(key, conditional_gr, s, Acall, ctype, ppp, w, data=info)
+    if ok and rng.random() < 0.35:
+        # history: the caller keeps its arrays and calls again -- the second answer must be the same table
+        ok_b, res_b = ctx.call(key + "/reused_arrays", conditional_gr, s, Acall, ctype, ppp, w, data=info)
+        if ok_b:
+            ctx.check("reused_arrays", list(res_b.columns) == list(res.columns) and np.array_equal(res_b.values, res.values, equal_nan=True),
+                      key + "/reused_arrays", "second call with the same (caller-owned) condition array returns another table", info)
     nb = int(Lmin / 2.0 / w)
     vec, dist, _ = geom.pair_table(s.positions, cell["H"], ppp)
     off = ~np.eye(N, dtype=bool)
@@ -164,7 +171,17 @@ def case_sq(ctx, rng):
     info = lambda: {"kind": kind, "d": d, "N": N, "L": L, "qvectors": nv, "positions": s.positions if N <= 25 else "omitted",  # noqa: E731
                     "condition": A if N <= 25 else "omitted"}
     key = f"conditional_sq/{kind}"
-    ok, out = ctx.call(key, conditional_sq, s, nv.copy(), A.copy(), data=info)
+    share = bool(rng.random() < 0.4)
+    qarr = nv.astype(np.float64) if share else nv.copy()      # caller-owned wave-vector array, float or int
+    Acall = A.copy()
+    ok, out = ctx.call(key, conditional_sq, s, qarr, Acall, data=info)
+    if ok and share:
+        # history: the same caller-owned arrays are handed in again (a loop over conditions / frames reuses one qvector array)
+        ok_b, out_b = ctx.call(key + "/reused_arrays", conditional_sq, s, qarr, Acall, data=info)
+        if ok_b:
+            ctx.check("reused_arrays", np.array_equal(out_b[0].values, out[0].values, equal_nan=True) and
+                      np.array_equal(out_b[1].values, out[1].values, equal_nan=True), key + "/reused_arrays",
+                      "second call with the same (caller-owned, float64) wave-vector array returns other tables", info)
     ctx.case(f"sq/{kind}/{d}D", s.positions, A, L, nv, nontrivial=N >= 4 and len(nv) >= 3,
              sample={"kind": kind, "N": N, "d": d, "L": L, "n_qvectors": len(nv)})
     if not ok:
